@@ -62,24 +62,35 @@ Definition wcase := (N * jv * option (list N))%type.
 Definition wcase_ok (c : wcase) : bool :=
   let '(be, w, obs) := c in opt_eqb text_eqb (writer_model be w) obs.
 
-(* reader case: (mode, input, observed value or None = rejected)
-     0  json.loads on a byte string (utf-8 branch of detect_encoding; float tokens observed through parse_float)
-     1  orjson.loads on a byte string (float tokens not observable: compared up to the token)
-     2  json.loads on a str (input = code points)
-     3  bytes.decode('utf-8', 'surrogatepass') (observed = the code points as a JStr)
-     4  bytes.decode('utf-8')
-     5  json.detect_encoding answers utf-8 or utf-8-sig (observed = JBool) *)
-Definition rcase := (N * list N * option jv)%type.
-Definition reader_model (mode : N) (inp : list N) : option jv :=
-  if mode =? 0 then option_map jv_norm (std_loads inp)
-  else if mode =? 1 then option_map jv_norm (json_read_strict inp)
-  else if mode =? 2 then option_map jv_norm (parse_text false inp)
-  else if mode =? 3 then option_map JStr (utf8_dec true inp)
-  else if mode =? 4 then option_map JStr (utf8_dec false inp)
-  else Some (JBool (std_utf8_branch inp)).
-Definition rcase_ok (c : rcase) : bool :=
-  let '(mode, inp, obs) := c in
-  opt_eqb (if mode =? 1 then jv_sim else jv_eqb) (reader_model mode inp) obs.
+(* reader case: (input bytes, observations), an observation = (observer, observed value or None = rejected)
+     0  json.loads on the byte string (utf-8 branch of detect_encoding; float tokens observed through parse_float)
+     1  orjson.loads on the byte string (float tokens not observable: compared up to the token)
+     2  json.loads on the str the bytes decode to (utf-8, surrogatepass)
+     3  bytes.decode('utf-8', 'surrogatepass'): observed = the code points as a JStr, JNull = "the bytes themselves"
+     4  bytes.decode('utf-8'): observed = JBool (did it decode; when it does the result is that of 3)
+     5  json.detect_encoding answers utf-8 or utf-8-sig: observed = JBool *)
+Definition rcase := (list N * list (N * option jv))%type.
+Definition obs_ok (inp : list N) (o : N * option jv) : bool :=
+  let '(mode, obs) := o in
+  if mode =? 0 then opt_eqb jv_eqb (option_map jv_norm (std_loads inp)) obs
+  else if mode =? 1 then opt_eqb jv_sim (option_map jv_norm (json_read_strict inp)) obs
+  else if mode =? 2 then
+    opt_eqb jv_eqb (match utf8_dec true inp with Some t => option_map jv_norm (parse_text false t) | None => None end) obs
+  else if mode =? 3 then
+    match utf8_dec true inp, obs with
+    | Some t, Some JNull => text_eqb t inp
+    | Some t, Some (JStr t') => text_eqb t t'
+    | None, None => true
+    | _, _ => false
+    end
+  else if mode =? 4 then
+    match obs with
+    | Some (JBool b) =>
+      Bool.eqb b (match utf8_dec false inp, utf8_dec true inp with Some t, Some t' => text_eqb t t' | _, _ => false end)
+    | _ => false
+    end
+  else opt_eqb jv_eqb (Some (JBool (std_utf8_branch inp))) obs.
+Definition rcase_ok (c : rcase) : bool := let '(inp, os) := c in forallb (obs_ok inp) os.
 
 (* round-trip case, decided inside Coq on the generated wire value itself: the three theorems' conclusions *)
 Definition rtcase_ok (w : jv) : bool :=
